@@ -475,7 +475,11 @@ func eScenario(r *rand.Rand) ([]database.Command, string, eOpts) {
 		o.Fuzzy = true
 		o.NLP = r.Intn(2) == 0
 		o.Threshold = []int{0, 0, -500}[r.Intn(3)]
-		switch r.Intn(3) {
+		switch r.Intn(5) {
+		case 3, 4: // nothing filtered, a threshold outside the usual range: short texts score around and above zero
+			o.AllPlatforms = true
+			o.Limit = 10
+			o.Threshold = []int{5, 10, 15, 25, 40, -100, -101, -150}[r.Intn(8)]
 		case 0:
 			o.Platforms, o.NoCross = intsList([]string{"linux"}), true
 		case 1:
